@@ -1,3 +1,128 @@
-(* C39 — statements (in progress) *)
+(* C39 — Floodgate identity data is authentic and interoperable with Floodgate.
+   Only statements and `exact`; the proofs are in Proofs/C39.v.
+   AES-GCM is abstract: [seal]/[open] are universally quantified and constrained by the stated premises
+   (correctness on byte strings; authenticity as a cryptographic assumption). The model functions are in
+   Model/Floodgate.v: impl_read_hostname = today's ReadHostname (panics on a nonce that is not 12 bytes),
+   spec_read_hostname = the same with that length checked; floodgate_encode / floodgate_decode = Floodgate's
+   own (Java) encoder and decoder. *)
 From Coq Require Import List NArith ZArith.
 From Verif Require Import Base.Hex Base.Base64 Base.Decimal Model.Floodgate Proofs.C39.
+Import ListNotations.
+Open Scope N_scope.
+
+(* what "field values" means below: the typed record gate can hold, strings are byte strings without NUL *)
+Theorem C39_valid_data_def : forall d, valid_data d <->
+  b_username d <> [] /\ b_xuid d <> 0%Z /\ in_int64 (b_xuid d) /\
+  (0 <= b_device d <= 15)%Z /\ in_int64 (b_ui d) /\ in_int64 (b_input d) /\
+  contains 0 (b_version d) = false /\ contains 0 (b_username d) = false /\ contains 0 (b_language d) = false /\
+  contains 0 (b_ip d) = false /\ contains 0 (b_linked d) = false /\ contains 0 (b_subscribe d) = false /\
+  contains 0 (b_verify d) = false /\
+  wf_bytes (b_version d) /\ wf_bytes (b_username d) /\ wf_bytes (b_language d) /\ wf_bytes (b_ip d) /\
+  wf_bytes (b_linked d) /\ wf_bytes (b_subscribe d) /\ wf_bytes (b_verify d).
+Proof. exact (fun d => iff_refl _). Qed.
+
+(* "data produced by Floodgate's own encoder ... is decoded by the proxy to the same fields":
+   every key, every 12-byte nonce, every valid record, every NUL-free original host, with or without a
+   ":port" tail (port_suffix sfx: sfx = [] or sfx = 58 :: port with port NUL-free). *)
+Theorem C39_roundtrip_in :
+  forall (seal : bytes -> bytes -> bytes -> bytes) (open : bytes -> bytes -> bytes -> option bytes),
+  (forall k iv p, wf_bytes p -> open k iv (seal k iv p) = Some p) ->
+  (forall k iv p, wf_bytes p -> wf_bytes (seal k iv p)) ->
+  forall k iv d h sfx,
+  wf_bytes iv -> length iv = 12%nat -> valid_data d -> contains 0 h = false -> port_suffix sfx ->
+  impl_read_hostname open k (floodgate_encode seal k iv h (bedrock_fields d) ++ sfx) = Ok (h, d).
+Proof. intros seal open H1 H2. exact (roundtrip_in seal open H1 H2 false). Qed.
+Print Assumptions C39_roundtrip_in.
+
+(* "data the proxy encodes is decoded by Floodgate's decoder to the same fields": WriteHostname emits
+   byte for byte what Floodgate's encoder emits for the same nonce, and Floodgate's decoder (Java Base64
+   decoder, String.split semantics: the last field must not be empty) reads back the twelve strings. *)
+Theorem C39_roundtrip_out :
+  forall (seal : bytes -> bytes -> bytes -> bytes) (open : bytes -> bytes -> bytes -> option bytes),
+  (forall k iv p, wf_bytes p -> open k iv (seal k iv p) = Some p) ->
+  (forall k iv p, wf_bytes p -> wf_bytes (seal k iv p)) ->
+  forall k iv d h,
+  wf_bytes iv -> length iv = 12%nat -> valid_data d -> b_verify d <> [] -> contains 0 h = false ->
+  write_hostname seal k iv h d = Some (floodgate_encode seal k iv h (bedrock_fields d)) /\
+  floodgate_decode open k (floodgate_encode seal k iv h (bedrock_fields d)) = Some (h, bedrock_fields d).
+Proof. exact roundtrip_out. Qed.
+Print Assumptions C39_roundtrip_out.
+
+(* "data produced under another key or altered ... is rejected": whatever ReadHostname accepts carries a
+   (nonce, ciphertext) pair that was issued under the key — [issued] is the set of triples produced by key
+   holders, the premise is ciphertext integrity (INT-CTXT) of AES-GCM, a cryptographic assumption. *)
+Theorem C39_tamper :
+  forall (open : bytes -> bytes -> bytes -> option bytes) (issued : bytes -> bytes -> bytes -> Prop),
+  (forall k iv c p, open k iv c = Some p -> issued k iv c) ->
+  forall k x h d, impl_read_hostname open k x = Ok (h, d) ->
+  exists iv c, envelope_of x = Some (iv, c) /\ length iv = 12%nat /\ issued k iv c.
+Proof. intros open issued A. exact (tamper open issued A false). Qed.
+Print Assumptions C39_tamper.
+
+(* the same with the premise in the form "only sealed ciphertexts open" *)
+Theorem C39_tamper_seal_form :
+  forall (seal : bytes -> bytes -> bytes -> bytes) (open : bytes -> bytes -> bytes -> option bytes),
+  (forall k iv c p, open k iv c = Some p -> c = seal k iv p) ->
+  forall k x h d, impl_read_hostname open k x = Ok (h, d) ->
+  exists iv p, envelope_of x = Some (iv, seal k iv p) /\ length iv = 12%nat.
+Proof. intros seal open A. exact (tamper_seal_form seal open A false). Qed.
+Print Assumptions C39_tamper_seal_form.
+
+(* altered: if (iv0, c0) is the only pair issued under k, a hostname whose DECODED nonce or ciphertext
+   differs is never accepted (it is an error or, for a wrong nonce length, today's panic) *)
+Theorem C39_altered_rejected :
+  forall (open : bytes -> bytes -> bytes -> option bytes) (issued : bytes -> bytes -> bytes -> Prop),
+  (forall k iv c p, open k iv c = Some p -> issued k iv c) ->
+  forall k iv0 c0 x iv c,
+  (forall iv' c', issued k iv' c' -> iv' = iv0 /\ c' = c0) ->
+  envelope_of x = Some (iv, c) -> (iv <> iv0 \/ c <> c0) ->
+  forall r, impl_read_hostname open k x <> Ok r.
+Proof. intros open issued A. exact (tamper_single open issued A false). Qed.
+Print Assumptions C39_altered_rejected.
+
+(* another key: nothing was issued under k' *)
+Theorem C39_other_key_rejected :
+  forall (open : bytes -> bytes -> bytes -> option bytes) (issued : bytes -> bytes -> bytes -> Prop),
+  (forall k iv c p, open k iv c = Some p -> issued k iv c) ->
+  forall k' x, (forall iv c, ~ issued k' iv c) -> forall r, impl_read_hostname open k' x <> Ok r.
+Proof. intros open issued A. exact (other_key open issued A false). Qed.
+Print Assumptions C39_other_key_rejected.
+
+(* why "altered in any byte" is read as "altering the decoded nonce or ciphertext": Base64 decoding (Go's
+   and Java's alike) is not injective — the unused bits of the last letter are ignored *)
+Theorem C39_b64_malleable : exists x x' : bytes, x <> x' /\ b64_decode x = b64_decode x' /\ b64_decode x <> None
+  /\ b64_decode_java x = b64_decode_java x'.
+Proof. exact b64_malleable. Qed.
+Print Assumptions C39_b64_malleable.
+
+(* "rejected without crashing": holds for the specification ... *)
+Theorem C39_no_crash_spec : forall open k x, spec_read_hostname open k x <> Panic.
+Proof. exact spec_never_panics. Qed.
+Print Assumptions C39_no_crash_spec.
+
+(* ... and is refuted for the code as it is (finding C39-1): a 3-byte nonce makes gcm.Open panic,
+   whatever the key and whatever AES-GCM does *)
+Theorem C39_no_crash_refuted : forall open k,
+  trigger_bad_iv crash_hostname = true /\ impl_read_hostname open k crash_hostname = Panic.
+Proof. exact impl_panics_refuted. Qed.
+Print Assumptions C39_no_crash_refuted.
+
+(* the trigger is exact, and off the trigger the code is the specification *)
+Theorem C39_impl_panics_iff : forall open k x, impl_read_hostname open k x = Panic <-> trigger_bad_iv x = true.
+Proof. exact impl_panics_iff. Qed.
+Theorem C39_impl_eq_spec_off_trigger : forall open k x, trigger_bad_iv x = false ->
+  impl_read_hostname open k x = spec_read_hostname open k x.
+Proof. exact impl_eq_spec_off_trigger. Qed.
+Print Assumptions C39_impl_eq_spec_off_trigger.
+
+(* Non-vacuity: the AEAD premises are satisfiable (toy AEAD whose tag is the key), the record premises
+   are met by a concrete record, and on it the model decodes to the record / rejects another key. *)
+Example C39_premises_satisfiable :
+  (forall k iv p, toy_open k iv (toy_seal k iv p) = Some p) /\
+  (forall k iv c p, toy_open k iv c = Some p -> c = toy_seal k iv p) /\
+  valid_data ex_data /\ wf_bytes ex_iv /\ wf_bytes ex_key.
+Proof. exact (conj toy_open_seal (conj toy_authentic ex_valid)). Qed.
+Example C39_nonvacuous :
+  impl_read_hostname toy_open ex_key (floodgate_encode toy_seal ex_key ex_iv ex_host (bedrock_fields ex_data)) = Ok (ex_host, ex_data)
+  /\ impl_read_hostname toy_open (repeat 8 16) (floodgate_encode toy_seal ex_key ex_iv ex_host (bedrock_fields ex_data)) = Err.
+Proof. exact ex_roundtrip. Qed.
